@@ -77,6 +77,10 @@ claimed = {
    text="PARTIAL: rendering excluded. Symbolic execution of the real addIPFIXMessage, flowRecordHandler and resetRecordHandler of cmd/collector (package main; the harness file is injected with go's overlay mechanism, nothing is added to the repository): one-step window update from a store of every length (quick: boundary lengths; thorough: every L in 0..4096), record queries for boundary counts in both formats and for a SYMBOLIC count on small stores (strconv.Atoi stubbed), refusal of invalid queries and methods, reset.",
    note="Not covered: 'every field appears by name and value' beyond one concrete record shape (fmt is rendered by the host for concrete operands only); json.Marshal/http plumbing are recorders; run(), the HTTP server and signal handling are not executed. Counterexamples are replayed in the interpreter.",
    tech="symbolic execution of Go SSA (package main via overlay) with recorder stubs for fmt/json/http"),
+ "C12": dict(cat="other", sec="DESIGN.md sections 6 and 11.6, C12",
+   text="PARTIAL, bounded slice only (two clients, in-memory connections). The real per-connection TCP handler with its reader goroutine (served as the accept loop serves it) and the real UDP dispatch path with its per-client goroutines run under the engine's scheduler together with a draining consumer and Stop; the scheduler's choice at every synchronisation point is a decision of the path explorer, so every interleaving within a preemption budget is enumerated: per-client exactly-once in-order delivery with symbolic values, connection count back to zero, Stop returns, all connections closed, no goroutine of the process left, no panic.",
+   note="NOT covered: kernel sockets, the listening socket and accept loop, TLS, more than two clients, data races (no race detector; code between synchronisation points runs atomically), abrupt socket closes, timing. Preemption budget 1 (quick) / 2 (thorough).",
+   tech="symbolic execution of Go SSA with exhaustive schedule exploration at synchronisation points (bounded preemptions)"),
  "C13": dict(cat="other", sec="DESIGN.md section 4, C13",
    text="PARTIAL: sufficient condition, not schedules. Every public operation of AggregationProcess is executed symbolically from bounded arbitrary states over all feasible paths (error paths, failing callbacks) under an access monitor that logs every load, store and map operation on state reachable from the process together with the process mutexes held; the lockset rule across operations (conflicting accesses, at least one write, not both atomic, no common lock), a mutex held at return, re-acquired while held or unlocked while free are violations. With mutual exclusion trusted this yields atomic operations (linearizable at the lock acquisition) and reduces lost-update / double-export questions to the sequential properties C05/C06.",
    note="Interleavings are NOT enumerated; the Go memory model, sync.RWMutex and the race detector are trusted. States of 0..1 (quick) / 0..2 (thorough) flows.",
@@ -88,7 +92,6 @@ claimed = {
 }
 
 NA = {
- "C12": "schedules/sockets/goroutine leaks under real concurrency cannot be made symbolic variables of an SMT query over go-ipfix code (DESIGN.md section 6)",
 }
 
 checks = []
